@@ -25,6 +25,13 @@ try:
         for q, (f, _, cls_) in cur.items():
             if q in reff and gate._dump(f) != gate._dump(reff[q][0]):
                 c1, c2 = gate.canonical_pair(f, cls_, reff[q][0], reff[q][2], newh, goneh, equiv.module_constants(ct), equiv.module_constants(rt), equiv.module_properties(ct), equiv.module_properties(rt), ct, rt)
+                if c1 is not None and c2 is not None and c1 != c2:
+                    cc, cr = gate._called(f), gate._called(reff[q][0])
+                    oc = gate._helper_table(cur, [x for x in gate._own(cur, cls_, cc - cr) if x in reff and x != q])
+                    orr = gate._helper_table(reff, [x for x in gate._own(reff, reff[q][2], cr - cc) if x in cur and x != q])
+                    if oc or orr:
+                        h1 = dict(newh); h1.update(oc); h2 = dict(goneh); h2.update(orr)
+                        c1, c2 = gate.canonical_pair(f, cls_, reff[q][0], reff[q][2], h1, h2, equiv.module_constants(ct), equiv.module_constants(rt), equiv.module_properties(ct), equiv.module_properties(rt), ct, rt)
                 print('  ', q, 'EQUIVALENT' if c1 is not None and c1 == c2 else 'differs')
                 if c1 != c2 and c1 and c2:
                     a = re.split(r"(?<=\)), ", c1); b = re.split(r"(?<=\)), ", c2)
